@@ -1,3 +1,38 @@
-From GM Require Import Emi94.
-Theorem C01_placeholder : True. Proof. exact I. Qed.
-Print Assumptions C01_placeholder.
+(* C01 — every instruction step follows ICWS'94 semantics, including read/write limits.
+   Statement only; proofs are in proofs/.  Exec.step is the literal uint64 model
+   of sim.go exec + simops.go + queue.go that the correspondence check runs
+   against gmars on every run; Emi94.step is the reference emulator. *)
+From GM Require Import Base Exec Emi94 QueueProof C01Exec C01Phase C01Top.
+Open Scope N_scope.
+
+(* one task: same core cell for cell on [0,M), same queue element for element,
+   for every core size 2..2^32, limits 1..M, process limit >= 1, well-formed core, pc < M *)
+Theorem C01_step_refines_emi94 :
+  forall M R W P wi c pc q,
+    2 <= M -> M <= 2 ^ 32 -> 1 <= R <= M -> 1 <= W <= M -> 1 <= P ->
+    core_wf M c -> pc < M -> rq_wf q -> q_size q = P ->
+    let '(c', q') := Exec.step M R W wi c pc q in
+    let '(c'', l) := Emi94.step M R W P c pc (rq_values q) in
+    core_eq M c' c'' /\ rq_values q' = l /\ rq_wf q' /\ q_size q' = P /\ core_wf M c''.
+Proof. exact step_refines. Qed.
+Print Assumptions C01_step_refines_emi94.
+
+(* the same at the level of exec: extensional equality on every address, and the
+   Push calls are exactly the reference's successor tasks, all below M *)
+Theorem C01_exec_refines_emi94 :
+  forall M R W wi, 2 <= M -> M <= 2 ^ 32 -> 1 <= R <= M -> 1 <= W <= M ->
+  forall c pc, cwf M c -> pc < M ->
+    let '(c', pushes, _) := exec M R W wi c pc in
+    let '(c'', succs) := step_core M R W c pc in
+    (forall a, get c' a = get c'' a) /\ pushes = succs /\ cwf M c'' /\
+    Forall (fun x => x < M) succs.
+Proof. exact exec_refines. Qed.
+Print Assumptions C01_exec_refines_emi94.
+
+(* the ring buffer of queue.go is a bounded first-in-first-out queue *)
+Theorem C01_queue_is_bounded_fifo :
+  forall q xs, rq_wf q ->
+    rq_wf (fold_left rq_push xs q) /\ q_size (fold_left rq_push xs q) = q_size q /\
+    rq_values (fold_left rq_push xs q) = enq (q_size q) (rq_values q) xs.
+Proof. exact rq_pushes. Qed.
+Print Assumptions C01_queue_is_bounded_fifo.
